@@ -9,7 +9,7 @@ Decided (structural necessary conditions, DESIGN.md section 4 / C16):
 """
 from core import walk, calls, peel, trace_is_call, callee_matches, find_matches, select_arms, V
 from kit import (need_body, const_bool, has_call, has_call_deep, guard_sites, dominated_by_calls, short,
-                 mentions_field, calls_deep)
+                 mentions_field, calls_deep, thir_all, collector_never_breaks)
 
 FOLDER_TRAITS = ("chalk_ir::fold::TypeFolder", "chalk_ir::fold::FallibleTypeFolder")
 FAMILIES = {
@@ -232,3 +232,7 @@ def run(ck, facts, tier):
         n = guard_sites(ck, R, inv, sites, edges, "Inverter fold", "free_vars.is_empty()")
         ck.floor(R, "invert.fold-sites", n, 2)
         dominated_by_calls(ck, R, inv, "Inverter::new", "InferenceTable::canonicalize", "Inverter::new", "canonicalize(value)")
+
+    R = "C16.UCOLLECT-ALL"
+    ck.rule(R, "K1: UCollector (gathers every universe mentioned by the value before compression) never aborts its traversal (no visit method returns ControlFlow::Break)")
+    collector_never_breaks(ck, R, facts, "chalk_solve", "<chalk_solve::infer::ucanonicalize::UCollector as chalk_ir::visit::TypeVisitor>::", "UCollector", 1)
